@@ -13,6 +13,7 @@ _lock_free_records: list[list[str]] = []  # records emitted outside any simulate
 
 
 _tls = threading.local()
+UNFORMATTABLE = "<unformattable "
 
 
 class shadow:
@@ -38,7 +39,7 @@ class _Sink(logging.Handler):
         try:
             msg = record.getMessage()
         except Exception as e:  # noqa: BLE001
-            msg = f"<unformattable {e!r}>"
+            msg = f"{UNFORMATTABLE}{e!r}>"
         rec = [record.name, record.levelname, msg]
         c = getattr(threading.current_thread(), "sim_client", None)
         if c is not None:
